@@ -504,6 +504,14 @@ def _check_config(cfg):
     km = ConstraintKMeans(n_clusters=k, strategy=strategy, kmeans0=cfg["kmeans0"], random_state=cfg["seed"] % 1000,
                           max_iter=cfg["max_iter"], n_init=cfg.get("n_init", 1), balanced_predictions=True)
     try:
+        if cfg.get("prior_strategy"):
+            # the same instance was used before with another strategy (history: fit; set_params; fit)
+            km.set_params(strategy=cfg["prior_strategy"], balanced_predictions=False)
+            try:
+                km.fit(X)
+            except Exception:  # noqa: BLE001  ('weights' is outside the property and may fail on its own)
+                pass
+            km.set_params(strategy=strategy, balanced_predictions=True)
         km.fit(X)
     except Exception as e:
         return [("constraint_kmeans:%s:%s:fit-raises-%s" % (strategy, start, type(e).__name__),
@@ -633,6 +641,12 @@ def search(ctx, hints):
     for k in (5, 6, 7):
         for t in range(ctx.pick(70, 200)):
             cfgs.append(_make_cfg(rng, k, k, "gain", False, d=2, max_iter=4))
+    # histories: the instance was fitted with another strategy first
+    for t in range(ctx.pick(12, 120)):
+        n, k = gen_nk(rng, 30, t % 3)
+        c = _make_cfg(rng, n, k, rng.choice(["distance", "gain"]), rng.random() < 0.5)
+        c["prior_strategy"] = rng.choice(["weights", "weights", "gain", "distance"])
+        cfgs.append(c)
     # the Lean witness of gain_counterexample, replayed on the real code
     for key, what, obs, req in _check_witness(WITNESS):
         vs.append(Violation(key, what, dict(WITNESS), obs, req))
